@@ -194,6 +194,10 @@ func GenerateC12(r *rand.Rand, opt C12Opts) *C12Set {
 			g.fill(m, n, 1, true, nil, false)
 		}
 	}
+	var shared []sharedInst
+	if opt.SharedAction {
+		shared = g.plantSharedAction(mods)
+	}
 	// expected trees before augments
 	for _, m := range mods {
 		root := &xnode{name: m.Name, kw: "module", by: m}
@@ -220,6 +224,7 @@ func GenerateC12(r *rand.Rand, opt C12Opts) *C12Set {
 		g.expand(root, old.Body, old)
 	}
 	// augments (applied to the expected trees as they are generated, so chains are possible)
+	g.augmentShared(shared, mods)
 	for round := 0; round < 2; round++ {
 		for _, m := range order {
 			if g.chance(0.55) {
@@ -245,6 +250,136 @@ func GenerateC12(r *rand.Rand, opt C12Opts) *C12Set {
 		g.emit(out.Expect, m.fullName(), "", root, nil)
 	}
 	return out
+}
+
+// sharedInst is one instantiation of the planted grouping: the module whose tree holds it and the
+// names from the root down to the action.
+type sharedInst struct {
+	t     *Module
+	names []string
+}
+
+func (g *c12gen) ensureImport(m, o *Module) {
+	for _, x := range m.Imports {
+		if x == o {
+			return
+		}
+	}
+	m.Imports = append(m.Imports, o)
+	m.ImportPrefix[o] = o.Prefix
+}
+
+// plantSharedAction: see C12Opts.SharedAction.
+func (g *c12gen) plantSharedAction(mods []*Module) []sharedInst {
+	perm := g.r.Perm(len(mods))
+	gm, a, a2 := mods[perm[0]], mods[perm[1]], mods[perm[2]]
+	g.gseq++
+	gr := &Node{Kw: "grouping", Arg: fmt.Sprintf("g%d", g.gseq)}
+	g.gInfo[gr] = &gmeta{owner: gm, top: true}
+	holder := gr
+	var below []string
+	if g.chance(0.35) {
+		holder = gr.add("container", "sops")
+		below = []string{"sops"}
+	}
+	act := holder.add("action", "sact")
+	switch k := g.r.Intn(10); {
+	case k < 6: // spells out neither input nor output
+	case k < 8:
+		act.add("input", "").add("leaf", "wi").add("type", "string")
+	default:
+		act.add("output", "").add("leaf", "wo").add("type", "string")
+	}
+	if g.chance(0.4) {
+		holder.add("leaf", "sleaf").add("type", "string")
+	}
+	g.finishGrouping(gr)
+	gm.Groupings = append(gm.Groupings, gr)
+	gm.Body.Kids = append(gm.Body.Kids, gr)
+	below = append(below, "sact")
+	var out []sharedInst
+	use := func(t *Module, cname, cfg string) {
+		ref := gr.Arg
+		if t != gm {
+			g.ensureImport(t, gm)
+			ref = t.ImportPrefix[gm] + ":" + gr.Arg
+		}
+		c := t.Body.add("container", cname)
+		if cfg != "" {
+			c.add("config", cfg)
+		}
+		u := c.add("uses", ref)
+		u.Uses = gr
+		out = append(out, sharedInst{t, append([]string{cname}, below...)})
+	}
+	// two places of one module that differ in effective config, one place in another module
+	use(a, "sstate", "false")
+	use(a, "scfg", g.pick([]string{"", "", "true"}))
+	use(a2, "sother", g.pick([]string{"", "", "false"}))
+	if g.chance(0.3) {
+		use(gm, "sown", g.pick([]string{"", "false"}))
+	}
+	g.r.Shuffle(len(out), func(i, j int) { out[i], out[j] = out[j], out[i] })
+	g.feat["shared_action_sets"]++
+	return out
+}
+
+// augmentShared augments the input or output of every instantiation of the planted action, each
+// from another module (never the one whose tree holds the instantiation).
+func (g *c12gen) augmentShared(insts []sharedInst, mods []*Module) {
+	off := g.r.Intn(4)
+	for i, in := range insts {
+		var cands []*Module
+		for _, m := range mods {
+			if m != in.t {
+				cands = append(cands, m)
+			}
+		}
+		x := g.trees[in.t]
+		for _, nm := range in.names {
+			if x != nil {
+				x = x.child(nm)
+			}
+		}
+		if x == nil || len(cands) == 0 {
+			g.broken = true
+			return
+		}
+		n := 1
+		if g.chance(0.3) {
+			n = 2
+		}
+		for j := 0; j < n; j++ {
+			a := cands[(i+j+off)%len(cands)]
+			g.ensureImport(a, in.t)
+			io := g.pick([]string{"input", "input", "output"})
+			if j == 1 {
+				io = "output"
+			}
+			pfx := a.ImportPrefix[in.t]
+			var sb strings.Builder
+			for _, nm := range in.names {
+				sb.WriteString("/" + pfx + ":" + nm)
+			}
+			sb.WriteString("/" + pfx + ":" + io)
+			au := &Node{Kw: "augment", Arg: sb.String()}
+			g.aseq++
+			au.add("leaf", fmt.Sprintf("ag%d", g.aseq)).add("type", "string")
+			if g.chance(0.3) {
+				g.aseq++
+				au.add("container", fmt.Sprintf("ag%d", g.aseq)).add("leaf", "in").add("type", "string")
+			}
+			a.Body.Kids = append(a.Body.Kids, au)
+			target := x.child(io)
+			if target == nil {
+				target = x.add(io, io, nil)
+				target.lib = true
+				g.feat["augment_into_unwritten_io"]++
+			}
+			g.expand(target, au, a)
+			g.feat["shared_action_augments"]++
+		}
+	}
 }
 
 func (m *Module) fullName() string {
